@@ -886,7 +886,9 @@ def poscar(ctx):
             ('direct, symbols from system', [2, 1, 2, 1, 1], 2, ('Al', 'Cu'), None, 'direct'),
             ('cartesian, symbols given', [1, 2, 2], 2, (None, None), ['Fe', 'O'], 'Cartesian'),
             ('kartesisch, no symbols, type gap', [3, 1, 3], 3, (None, None, None), None, 'k'),
-            ('Direct, single str symbol', [1, 1], 1, (None,), 'Si', 'Direct')):
+            ('Direct, single str symbol', [1, 1], 1, (None,), 'Si', 'Direct'),
+            ('direct, a trailing type without atoms (three symbols, atoms of the first two)', [1, 2, 1], 3, ('Al', 'Cu', 'Ni'), None, 'direct'),
+            ('cartesian, no symbols, a trailing type without atoms', [2, 1], 3, (None, None, None), None, 'cartesian')):
         n += 1
         system = PoscarSys(atype, natypes, symbols)
         ev = SymEval(aliases)
@@ -913,8 +915,7 @@ def poscar(ctx):
         if syms is not None:
             tpl += '\n' + ' '.join(syms)
         tpl += '\n'
-        mx = max(atype)
-        for t in range(1, mx + 1):
+        for t in range(1, natypes + 1):          # one count per atom type of the system (as many as the symbols line names): a type without atoms counts 0
             tpl += '{%d} '
             vals.append(sp.Integer(sum(1 for a in atype if a == t)))
         tpl += '\n' + style
@@ -929,7 +930,7 @@ def poscar(ctx):
         ctx.ob('POSCAR', loc, '%s: positions are read %s' % (tag, 'Cartesian' if cart else 'box-relative'), len(pc) == 1 and pc[0][1] == 'pos' and bool(pc[0][2]) == (not cart), str(pc), node=fn, key=tag + ' mode')
         ctx.ob('POSCAR', loc, '%s: the system written keeps its positions (the division by the scale factor is made on a copy)' % tag, equal(np.asarray(system.atoms.view['pos'], dtype=object), system.P, deep=False), node=fn,
                key=tag + ' system kept')
-    ctx.floor('POSCAR', n, 4)
+    ctx.floor('POSCAR', n, 6)
     # symbols/natypes mismatch refused
     raises = [s for s in ast.walk(fn) if isinstance(s, ast.Raise)]
     ok = any(isinstance(r._parent, ast.If) and 'len(symbols)' in norm(r._parent.test) and 'natypes' in norm(r._parent.test) for r in raises)
